@@ -126,6 +126,11 @@ func (s *Script) Receive(ctx context.Context, fn func(Msg)) error {
 				inj.done <- ""
 			}()
 			fn(inj.msg)
+			// the transport recycles its receive buffer as soon as the callback has returned (the p2p.Receiver
+			// contract): a layer that wants to keep the bytes has to copy them
+			for i := range inj.msg.Payload {
+				inj.msg.Payload[i] = 0xDD
+			}
 		}()
 		return nil
 	}
@@ -149,6 +154,9 @@ func (s *Script) ServeAsk(ctx context.Context, fn func(context.Context, []byte, 
 			var out []byte
 			if n >= 0 && n <= len(resp) {
 				out = append([]byte{}, resp[:n]...)
+			}
+			for i := range inj.msg.Payload {
+				inj.msg.Payload[i] = 0xDD // recycled, as above
 			}
 			inj.done <- askResult{n: n, resp: out}
 		}()
